@@ -421,3 +421,49 @@ func VerifH_EntryProofComplete() {
 	}
 	verifrt.Reach("all entry proofs verified")
 }
+
+// VerifH_ProofVerifiersTotal: proof messages are untrusted input of the client. For headers with
+// ANY version number (and every other field symbolic), proofs with symbolic digests and term
+// counts up to L, and symbolic ids / trusted digests, VerifyDualProof, VerifyDualProofV2 and
+// VerifyLinearProof return a verdict: they never panic.
+func VerifH_ProofVerifiersTotal() {
+	L := verifrt.Param("L")
+	hdr := func(name string) *TxHeader {
+		h := &TxHeader{ID: verifrt.U64(name + ".ID"), Ts: verifrt.I64(name + ".Ts"), BlTxID: verifrt.U64(name + ".BlTxID"),
+			BlRoot: verifrt.Digest(name + ".BlRoot"), PrevAlh: verifrt.Digest(name + ".PrevAlh"),
+			Version: int(verifrt.I64(name + ".Version")), NEntries: int(verifrt.I64(name + ".NEntries")), Eh: verifrt.Digest(name + ".Eh")}
+		verifrt.Assume(h.ID <= 6 && h.BlTxID <= 6)
+		return h
+	}
+	src, tgt := hdr("src"), hdr("tgt")
+	srcID, tgtID := verifrt.U64("srcID"), verifrt.U64("tgtID")
+	srcAlh, tgtAlh := verifrt.Digest("srcAlh"), verifrt.Digest("tgtAlh")
+	switch verifrt.Param("which") {
+	case 0:
+		p := &DualProof{SourceTxHeader: src, TargetTxHeader: tgt,
+			InclusionProof: verifrt.DigestsUpTo("p.incl", L), ConsistencyProof: verifrt.DigestsUpTo("p.cons", L),
+			TargetBlTxAlh: verifrt.Digest("p.tbl"), LastInclusionProof: verifrt.DigestsUpTo("p.last", L),
+			LinearProof:        &LinearProof{SourceTxID: verifrt.U64("lp.src"), TargetTxID: verifrt.U64("lp.tgt"), Terms: verifrt.DigestsUpTo("lp.term", L)},
+			LinearAdvanceProof: &LinearAdvanceProof{LinearProofTerms: verifrt.DigestsUpTo("lap.term", L)}}
+		if VerifyDualProof(p, srcID, tgtID, srcAlh, tgtAlh) {
+			verifrt.Reach("accepted")
+		} else {
+			verifrt.Reach("rejected")
+		}
+	case 1:
+		p := &DualProofV2{SourceTxHeader: src, TargetTxHeader: tgt,
+			InclusionProof: verifrt.DigestsUpTo("p.incl", L), ConsistencyProof: verifrt.DigestsUpTo("p.cons", L)}
+		if VerifyDualProofV2(p, srcID, tgtID, srcAlh, tgtAlh) == nil {
+			verifrt.Reach("accepted")
+		} else {
+			verifrt.Reach("rejected")
+		}
+	default:
+		p := &LinearProof{SourceTxID: verifrt.U64("lp.src"), TargetTxID: verifrt.U64("lp.tgt"), Terms: verifrt.DigestsUpTo("lp.term", L)}
+		if VerifyLinearProof(p, srcID, tgtID, srcAlh, tgtAlh) {
+			verifrt.Reach("accepted")
+		} else {
+			verifrt.Reach("rejected")
+		}
+	}
+}
